@@ -635,4 +635,7 @@ def contracts():
     C.append(color_contract())
     C.append(vc("Bytes", MOD_P, ["allow_None", "regex"], wf_regex, valid_string("bytes")))
     C.append(vc("String", MOD_Z, ["allow_None", "regex"], wf_regex, valid_string("str")))
+    # the routes: whatever the descriptor setter stores is the value `_validate` accepted
+    from contracts import c02 as _c02
+    C += _c02.all_set_contracts(["C01/"])
     return C
